@@ -52,6 +52,7 @@ def risk_prop(ops):
 
 
 LIQ_DRIVERS = [{"name": "liq", "args": {"quick": [300], "thorough": [6000]}}]
+STAKED_DRIVERS = [{"name": "staked", "args": {"quick": [40], "thorough": [2000]}}]
 GATE_MODELS = [
     {"name": "gate", "module": "Gate.tla", "cfg": {"quick": "MC_GateQuick.cfg", "thorough": "MC_GateThorough.cfg"}, "setup": "setups/gate.json"},
 ]
@@ -75,7 +76,22 @@ def risk_prop2(ops, drivers, models=(), minnt=30):
 
 AUTH_MODELS = [
     {"name": "auth", "module": "Auth.tla", "cfg": "MC_Auth.cfg", "setup": "setups/auth.json", "env": {"AUTH_BASE": "gen/auth_base.json"}},
+    {"name": "roles", "module": "Roles.tla", "cfg": {"quick": "MC_RolesQuick.cfg", "thorough": "MC_RolesThorough.cfg"}, "setup": "setups/auth.json",
+     "env": {"AUTH_BASE": "gen/auth_base.json"}, "timeout": {"quick": 900, "thorough": 7200}},
 ]
+
+
+def auth_nontrivial(e):
+    a = e.get("a")
+    if not isinstance(a, dict):
+        return None
+    if "cell" in a:
+        return (a.get("cell"), a.get("variant"), a.get("who"), str(a.get("subst")), a.get("mode"), e.get("res"))
+    if a.get("op") == "config_group":
+        return ("config_group", str(sorted((k, v) for k, v in a.items() if k.endswith("admin"))), e.get("res"))
+    if "oracle_sub" in a or "oracle_sub_slots" in a:
+        return (a.get("op"), str(a.get("oracle_sub")), str(a.get("oracle_sub_slots")), e.get("res"))
+    return None
 
 ADMIN_DRIVERS = [{"name": "admin", "args": {"quick": [240], "thorough": [6000]}}]
 RECV_DRIVERS = [{"name": "recv", "args": {"quick": [60], "thorough": [3000]}}]
@@ -125,22 +141,23 @@ PROPS = {
                        "withdraw_emissions_perm", "deposit", "withdraw"], ADMIN_DRIVERS + LEDGER_DRIVERS, models=LEDGER_MODELS, minnt=200),
     "C08": {
         "models": AUTH_MODELS,
-        "drivers": [],
-        "nontrivial": lambda e: (e["a"].get("cell"), e["a"].get("variant"), e["a"].get("who"), str(e["a"].get("subst")), e.get("res")) if isinstance(e.get("a"), dict) and "cell" in e["a"] else None,
-        "rule": "each matrix cell (instruction x variant: unmodified, signer identity, missing signature, slot x foreign object; normal and frozen account) executed through marginfi::entry is one evaluation; all cells are non-trivial; distinct by (cell, variant, identity, substitution, result)",
+        "drivers": STAKED_DRIVERS + RISK_DRIVERS + LIQ_DRIVERS,
+        "nontrivial": auth_nontrivial,
+        "rule": "each matrix cell (instruction x variant: unmodified, signer identity, missing signature, slot x foreign object; normal and frozen account; every role-gated instruction x identity after every re-assignment of a group role) executed through marginfi::entry is one evaluation, so is every role assignment and every instruction executed with a substituted price account; all are non-trivial; distinct by (cell, variant, identity, substitution, mode, result)",
         "min_nontrivial": 500,
     },
-    "C04": risk_prop(["borrow", "withdraw"]),
-    "C05": risk_prop2(["liquidate"], LIQ_DRIVERS + LEDGER_DRIVERS, models=RISK_MODELS),
+    "C04": dict(risk_prop(["borrow", "withdraw"]), drivers=RISK_DRIVERS + LEDGER_DRIVERS + STAKED_DRIVERS),
+    "C05": risk_prop2(["liquidate"], LIQ_DRIVERS + LEDGER_DRIVERS + STAKED_DRIVERS, models=RISK_MODELS),
     "C07": risk_prop2(["bankruptcy"], LIQ_DRIVERS + LEDGER_DRIVERS, models=RISK_MODELS),
-    "C09": risk_prop2(["borrow", "withdraw", "liquidate", "bankruptcy", "pulse_health"], LIQ_DRIVERS + RISK_DRIVERS + LEDGER_DRIVERS, models=RISK_MODELS),
-    "C13": risk_prop2(["add_bank", "configure_bank", "configure_emode", "borrow", "withdraw", "pulse_health", "bankruptcy", "clone_emode"], LIQ_DRIVERS + RISK_DRIVERS + ADMIN_DRIVERS, models=RISK_MODELS),
+    "C09": risk_prop2(["borrow", "withdraw", "liquidate", "bankruptcy", "pulse_health"], LIQ_DRIVERS + RISK_DRIVERS + LEDGER_DRIVERS + STAKED_DRIVERS, models=RISK_MODELS),
+    "C13": risk_prop2(["add_bank", "add_bank_staked", "init_staked_settings", "edit_staked_settings", "propagate_staked", "configure_bank", "configure_emode", "borrow", "withdraw", "pulse_health", "bankruptcy", "clone_emode"],
+                      LIQ_DRIVERS + RISK_DRIVERS + ADMIN_DRIVERS + STAKED_DRIVERS, models=RISK_MODELS),
     "C14": risk_prop2(["deposit", "withdraw", "borrow", "repay", "liquidate", "bankruptcy"], LIQ_DRIVERS, models=GATE_MODELS),
     "C01": ledger_prop(),
-    "C02": ledger_prop(),
+    "C02": dict(ledger_prop(), drivers=LEDGER_DRIVERS + LIQ_DRIVERS),
     "C03": ledger_prop(),
     "C06": dict(ledger_prop(), drivers=LEDGER_DRIVERS + [{"name": "caps", "args": {"quick": [200], "thorough": [4000]}}]),
-    "C16": dict(ledger_prop(), drivers=LEDGER_DRIVERS + [{"name": "struct", "args": {"quick": [60], "thorough": [2000]}}]),
+    "C16": dict(ledger_prop(), drivers=LEDGER_DRIVERS + [{"name": "struct", "args": {"quick": [60], "thorough": [2000]}}] + LIQ_DRIVERS + STAKED_DRIVERS),
     "C17": dict(ledger_prop(), drivers=LEDGER_DRIVERS + [{"name": "caps", "args": {"quick": [300], "thorough": [8000]}}]),
     "C15": {
         "models": [
